@@ -383,7 +383,7 @@ fn rule_text(prop: &str) -> &'static str {
 
 fn components() -> Value {
     json!({
-        "real_code": ["pest (parser_state, error, position, stack, iterators)", "pest_meta (meta-parser, validator, optimizer inside every run)", "pest_vm", "pest_derive/pest_generator output for json/toml/http/sql and the meta grammar (C12/C15)", "pest_debugger/src/lib.rs (every line except the use-std block)"],
+        "real_code": ["pest (parser_state, error, position, stack, iterators)", "pest_meta (meta-parser, validator, optimizer inside every run)", "pest_vm", "pest_derive/pest_generator output for json/toml/http/sql, the meta grammar, vm/tests/{grammar,lists,reporting}.pest and a build-time family of 96 generated grammars (C12/C15)", "pest_debugger/src/lib.rs (every line except the use-std block)"],
         "stubbed_or_modelled": ["std::thread::{spawn,park,JoinHandle,Thread::unpark} -> simstd on shuttle-engine coroutines (own park token)", "std::sync::{Mutex, atomic::AtomicBool (SeqCst only), mpsc::sync_channel capacity>=1} -> simstd", "client of the debugger -> scripted controller", "other caller threads / configurator -> scripted"],
         "not_simulated": ["debugger/src/main.rs (rustyline/reqwest CLI)"]
     })
